@@ -543,7 +543,13 @@ func (q *Queue) deliver(meta *QueueMetadata, header textproto.Header, body buffe
 
 	if err := delivery.Commit(bodyCtx); err != nil {
 		dl.Debugf("delivery.Commit failed: %v", err)
-		expandToPartialErr(err)
+		// Recipients that already failed keep their own (possibly
+		// permanent) status.
+		for _, rcpt := range acceptedRcpts {
+			if perr.Errs[rcpt] == nil {
+				perr.Errs[rcpt] = err
+			}
+		}
 	}
 	dl.Debugf("delivery.Commit OK")
 
